@@ -264,6 +264,17 @@ func addVal(valA, valB Quantity) Quantity {
 }
 
 func subVal(valA, valB Quantity) Quantity {
+	// the minimum value cannot be negated: -MinInt64 wraps back to MinInt64
+	if valB == math.MinInt64 {
+		// valA - MinInt64 is valA + MaxInt64 + 1: always fits for a negative valA, overflows otherwise
+		if valA < 0 {
+			return addVal(valA, math.MaxInt64) + 1
+		}
+		log.Log(log.Resources).Warn("Resource calculation wrapped: returned maximum value possible",
+			zap.Int64("valueA", int64(valA)),
+			zap.Int64("valueB", int64(valB)))
+		return math.MaxInt64
+	}
 	return addVal(valA, -valB)
 }
 
